@@ -258,6 +258,14 @@ def assembly_cases(ctx):
             ref = MU0 / (4 * np.pi) * np.einsum("jk,j,ij->ik", Kt, dev.areas * LU**2, 1 / r) / (1e-3 * LU)
             if np.abs(ap["supercurrent_density"][:, :2] - ref).max() > 1e-9 * np.abs(ref).max() + 1e-30:
                 fail("potential-vs-si", f"vector potential of the supercurrent differs from (mu0/4pi) sum K a / r (step {step})", step=step)
+            # evaluation points very close to (but off) the film, right above mesh sites: the kernel is 1/|r - r_j| there too
+            near = dev.points[[3, len(dev.points) // 2, len(dev.points) - 5]] + 1e-4 * sc_
+            for zn in (0.004 * sc_, -0.02 * sc_):
+                apn = sol.vector_potential_at_position(near, zs=zn, return_sum=False, with_units=False)
+                rn = np.sqrt(((near[:, None, :] - dev.points[None, :, :]) ** 2).sum(axis=2) + zn**2) * LU
+                refn = MU0 / (4 * np.pi) * np.einsum("jk,j,ij->ik", Kt, dev.areas * LU**2, 1 / rn) / (1e-3 * LU)
+                if np.abs(apn["supercurrent_density"][:, :2] - refn).max() > 1e-9 * np.abs(refn).max() + 1e-30:
+                    fail("potential-vs-si:near-film", f"vector potential of the supercurrent at height {zn / sc_:.3g} um above mesh sites differs from (mu0/4pi) sum K a / r (step {step})", step=step, height=float(zn / sc_))
             # the applied part is evaluated at the time of the frame
             if name.startswith("timedep"):
                 t_frame = float(sol.tdgl_data.state["time"])
